@@ -65,6 +65,10 @@ def v3_catalogue():
             cat.append({"v3": {"kind": "v3_cipher", "n": n, "pad": pad}})
     for v in (0x00, 0x21, 0xFF):
         cat.append({"v3": {"kind": "v3_magic", "value": v}})
+    for n in (0, 16, 32, 48):
+        for pad in (0, 1, 13, 14, 15):
+            for t in (3, 1):
+                cat.append({"v3": {"kind": "v3_valid_tag_plain", "n": n, "pad": pad, "type": t}})
     for n in (1, 2, 5, 6, 7, 8, 9, 37, 38, 39, 40, 100):
         cat.append({"v3": {"kind": "v3_trunc", "n": n}})
     for t in (0, 1, 3, 6, 0xF):
@@ -112,6 +116,8 @@ def run(plan):
                 res.fail(f"genuine handshake raised {o.exc_type}", repr(o.exc))
                 return
         op = {"retries": plan.get("retries", 1)}
+        if plan.get("connect_junk") is not None:
+            op["conn"] = [["accept_junk", 1 / 1024, plan["connect_junk"]]]
         if phase == "data":
             op["net"] = [dict(d) for _ in range(3)]
         else:
@@ -159,7 +165,8 @@ def run(plan):
     if w.net.protocol_exceptions:
         res.probes["exception_inside_data_received"] = len(w.net.protocol_exceptions)
     res.key = res.digest
-    res.nontrivial = any(k.startswith("byz") or k in ("raw_reply", "hs_raw") for k in dev.fired)
+    res.nontrivial = any(k.startswith("byz") or k.startswith("close_after_hs") or k in ("raw_reply", "hs_raw", "connect_accept_junk")
+                         for k in dev.fired)
     return res
 
 
@@ -215,7 +222,15 @@ def space(tier):
                              {"then_honest": True} if rng.random() < 0.3 else None)
         phase = rng.choice(["data", "hs"])
         kind = rng.choice(["v3_type", "v3_padn", "v3_size", "v3_cipher", "v3_trunc", "v3_short_plain", "random",
-                           "random_marker", "inner", "v2"])
+                           "random_marker", "inner", "v2", "v3_valid_tag_plain", "hs_close"])
+        if kind == "hs_close":
+            p = make_plan(3, rng.choice(OPS), "hs", None, rng)
+            p["directive"] = {"close": True, "rst": rng.random() < 0.5}
+            return p
+        if kind == "v3_valid_tag_plain":
+            b = {"v3": {"kind": kind, "n": rng.choice([0, 16, 32, 48, 64]), "pad": rng.randrange(16), "type": rng.choice([3, 3, 1, 6])}}
+            return make_plan(3, rng.choice(["lan_send", "refresh"]), "data", b, rng,
+                             {"then_honest": True} if rng.random() < 0.3 else None)
         if kind == "v3_type":
             b = {"v3": {"kind": kind, "type": rng.randrange(16), "plain": rng.random() < 0.5, "n": rng.randrange(0, 130)}}
         elif kind == "v3_padn":
@@ -244,4 +259,31 @@ def space(tier):
             extra["cuts"] = sorted(rng.randrange(1, 300) for _ in range(rng.randint(1, 4)))
         return make_plan(3, rng.choice(OPS if phase == "hs" else ["lan_send", "refresh"]), phase, b, rng, extra)
     sp.add("random", 25000 if tier == "quick" else 1_000_000, rnd)
+
+    def junk(j, rng):
+        """The peer speaks first: hostile bytes right after accept, then an honest or hostile exchange."""
+        v = rng.choice([2, 3])
+        kind = rng.choice(["random", "marker_partial", "valid_looking", "error_packet", "tiny"])
+        if kind == "random":
+            data = rand_bytes(rng, rng.choice([1, 5, 6, 40, 200]))
+        elif kind == "marker_partial":
+            data = (b"\x83\x70" if v == 3 else b"\x5a\x5a") + rand_bytes(rng, rng.choice([0, 1, 2, 4, 30]))
+        elif kind == "valid_looking":
+            from refmodel import codec as C
+            inner = C.v2_encode(rng.getrandbits(48), rand_bytes(rng, rng.choice([0, 5, 24])), magic=b"\x20\x80")
+            data = inner if v == 2 else C.v3_encode_plain(0, inner[:64], rng.choice([0, 1, 3, 6, 15]))
+        elif kind == "error_packet":
+            from refmodel import codec as C
+            data = C.v3_encode_plain(0, b"ERROR", 15)
+        else:
+            data = bytes([rng.choice([0x83, 0x5A, 0x00, 0xAA])])
+        p = make_plan(v, rng.choice(["lan_send", "refresh"] if v == 2 else OPS), "data" if v == 2 else rng.choice(["data", "hs"]),
+                      None, rng)
+        p["directive"] = {} if rng.random() < 0.6 else p["directive"]
+        p["directive"].pop("byz", None)
+        p["connect_junk"] = data.hex()
+        if v == 3 and p["phase"] == "data":
+            p["phase"] = "hs"       # the junk must hit the first connection, which the handshake opens
+        return p
+    sp.add("peer_speaks_first", 3000 if tier == "quick" else 200_000, junk)
     return sp
